@@ -22,7 +22,9 @@ def _int_values(ty):
 
 
 STR_VALUES = ['', 'a', 'é', 'ab', 'éé', 'abc', '5', '-1', '+5', '005', '4', '6', '2147483648', '-2147483649',
-              '9223372036854775808', '170141183460469231731687303715884105728', '5 ', 'x5', '-', '+']
+              '9223372036854775808', '170141183460469231731687303715884105728', '5 ', 'x5', '-', '+',
+              # fractional lexical forms: the String carrier compares INTEGER numerals (unit R's specification); a fraction is not one
+              '5.5', '4.5', '-0.5', '10.999', '1e1', '5.0']
 STR_NUM = ['None', 'Some(5)', 'Some(-1)']
 STR_LEN = ['None', 'Some(1)', 'Some(2)']
 STR_ENUM = ['None', 'Some(vec![])', 'Some(vec!["a".to_string()])', 'Some(vec!["é".to_string(), "5".to_string()])']
